@@ -443,6 +443,22 @@ theorem emitOnly_out {m : MMachine σ α β} {cfg : Sources α} {I : σ → Prop
           simp [feed, h0, deliver, hop']
         exact hdrop _ hf
 
+/-- C01 for every multi-source machine and any mix of hot and synchronous sources: whatever arrives,
+    the delivered trace obeys the grammar -/
+theorem runMulti_grammar (m : MMachine σ α β) (cfg : Sources α) (sub : Ctx) (order : List Nat) :
+    Grammar (runMulti m cfg sub order).out := by
+  have hP := grammar_preserved m
+  have h1 := phasesAt_preserves cfg hP (depth cfg) (m.boot sub) ({ st := m.init } : MSt σ α β) ⟨by simp [Grammar], fun _ => rfl⟩
+  have h2 : (fun r : MSt σ α β => Grammar r.out ∧ (r.downOpen = true → hasTerm r.out = false)) (bootSt m cfg sub) := by
+    unfold bootSt
+    simp only
+    split
+    · exact h1
+    · refine ⟨by simpa using h1.1, fun h => ?_⟩
+      rename_i hd
+      simp at h; exact absurd h hd
+  exact (feedAll_preserves cfg hP _ _ h2).1
+
 /-! ### arrival orders -/
 
 theorem gateEventsFrom_congr (p : Nat → Bool) (evs : List (MEvent α)) (cl cl' : Nat → Bool)
